@@ -76,6 +76,8 @@ def domains(draw):
 def histories(draw):
     nm = draw(st.integers(1, 3))
     models = [draw(S.model_specs(PROFILE, 1, 9)) for _ in range(nm)]
+    if nm >= 2 and draw(st.integers(0, 2)) == 0:
+        models[-1] = S.eq_twin(draw, models[0])       # == to models[0] for the library, yet a different model
     steps = []
     for _ in range(draw(st.integers(2, 10))):
         i = draw(st.integers(0, nm - 1))
